@@ -109,6 +109,33 @@ def minimise_c16(ctx, spec, res, viol, max_runs=300, max_s=90.0):
                     return s3, got3
         return None
 
+    # --- phase S: the same failure under a single preemption taken from the trace ----
+    if len(cur['plan']['segments']) > 3 and budget.ok():
+        T = len(cur['threads'])
+        seen = set()
+        cands = []
+        for sw in res.get('switches', []):
+            if len(sw) >= 5 and sw[3] not in (None, 'lock') and (sw[1], sw[4]) not in seen:
+                seen.add((sw[1], sw[4]))
+                cands.append(sw)
+        # spread the attempts over the whole trace
+        if len(cands) > 60:
+            step = len(cands) / 60.0
+            cands = [cands[int(i * step)] for i in range(60)]
+        for sw in cands:
+            if not budget.ok() or budget.runs > max_runs * 0.4:
+                break
+            a, to = sw[1], sw[2]
+            s2 = copy.deepcopy(cur)
+            s2['plan'] = {'plan': 'one', 'a': a, 'k': sw[4], 'order': [to] + [x for x in range(T) if x not in (a, to)]}
+            got = attempt(s2)
+            if got:
+                s3 = with_segments(s2, got[0]['segments'])
+                got3 = attempt(s3)
+                if got3:
+                    cur, (cur_res, cur_v) = s3, got3
+                    break
+
     # --- phase A: structure -------------------------------------------------
     changed = True
     while changed and budget.ok():
